@@ -97,6 +97,26 @@ type c18Prof struct {
 	Alias string `json:"alias"`
 	// Chain: shape of the declaration chain (rootfiles of container.xml / order of relationships)
 	Chain string `json:"chain"`
+	// Xml: the spelling of the declarations (never changes what is declared)
+	Xml c18Xml `json:"xml"`
+}
+
+type c18Xml struct {
+	Rev     bool   `json:"rev"`
+	Prefix  string `json:"prefix"`
+	Single  bool   `json:"single"`
+	Foreign bool   `json:"foreign"`
+	OC      bool   `json:"oc"`
+	Gaps    bool   `json:"gaps"`
+	Decl    string `json:"decl"`
+}
+
+func (x c18Xml) spelling() ooxmlw.Spelling {
+	return ooxmlw.Spelling{Rev: x.Rev, RelPrefix: x.Prefix, Single: x.Single, Foreign: x.Foreign, OpenClose: x.OC, Gaps: x.Gaps, Decl: x.Decl}
+}
+
+func (x c18Xml) plain() bool {
+	return !x.Rev && (x.Prefix == "" || x.Prefix == "r") && !x.Single && !x.Foreign && !x.OC && !x.Gaps && (x.Decl == "" || x.Decl == "std")
 }
 
 // c18Root is one <rootfile> of META-INF/container.xml (EPUB), in container order.
@@ -162,7 +182,7 @@ const c18NavTok = 92 // shown only inside the EPUB navigation document
 func c18Members(c *c18Case) ([]ooxmlw.Member, string) {
 	switch c.Fmt {
 	case "xlsx":
-		wb := &ooxmlw.XWorkbook{Extras: c.Prof.Extras, InfraFirst: c.Prof.Infra, RelsInfraFirst: c.Prof.Chain == "infraFirst"}
+		wb := &ooxmlw.XWorkbook{Extras: c.Prof.Extras, InfraFirst: c.Prof.Infra, RelsInfraFirst: c.Prof.Chain == "infraFirst", Sp: c.Prof.Xml.spelling()}
 		for _, p := range c.Parts {
 			wb.Sheets = append(wb.Sheets, ooxmlw.XSheet{
 				Name: fmt.Sprintf("n%03d", p.ID), SheetID: 20 + p.ID, RID: fmt.Sprintf("rId%d", 3+p.Rel),
@@ -174,7 +194,7 @@ func c18Members(c *c18Case) ([]ooxmlw.Member, string) {
 		}
 		return wb.Members(), ".xlsx"
 	case "pptx":
-		d := &ooxmlw.Deck{Extras: c.Prof.Extras, InfraFirst: c.Prof.Infra, RelsInfraFirst: c.Prof.Chain == "infraFirst"}
+		d := &ooxmlw.Deck{Extras: c.Prof.Extras, InfraFirst: c.Prof.Infra, RelsInfraFirst: c.Prof.Chain == "infraFirst", Sp: c.Prof.Xml.spelling()}
 		for _, p := range c.Parts {
 			d.Slides = append(d.Slides, ooxmlw.PSlide{Text: c18Tok(p.ID), SldID: 256 + 2*p.Rel + p.ID*16, RID: fmt.Sprintf("rId%d", 3+p.Rel),
 				PartName: c18NameStr(p.Name), Target: c18HrefStr(p.Href), DeclPos: p.Decl, RelPos: p.Rel, ZipPos: p.Zip + 1, Absent: !p.Present})
@@ -185,7 +205,7 @@ func c18Members(c *c18Case) ([]ooxmlw.Member, string) {
 		if len(c.Base) > 0 {
 			opf = strings.Join(c.Base, "/") + "/content.opf"
 		}
-		b := &ooxmlw.Book{OPFPath: opf, Version: c.Prof.Ver, Extras: c.Prof.Extras, InfraFirst: c.Prof.Infra, NavText: "Contents " + c18Tok(c18NavTok)}
+		b := &ooxmlw.Book{OPFPath: opf, Version: c.Prof.Ver, Extras: c.Prof.Extras, InfraFirst: c.Prof.Infra, NavText: "Contents " + c18Tok(c18NavTok), Sp: c.Prof.Xml.spelling()}
 		for _, p := range c.Parts {
 			b.Chapters = append(b.Chapters, ooxmlw.EChapter{ItemID: fmt.Sprintf("c%d", p.ID), Text: c18Tok(p.ID),
 				PartName: c18NameStr(p.Name), Href: c18HrefStr(p.Href), DeclPos: p.Decl, RelPos: p.Rel, ZipPos: p.Zip + 1, Absent: !p.Present})
@@ -366,6 +386,9 @@ func c18Feature(c *c18Case) string {
 	if c.Fmt == "epub" {
 		f = append(f, "opf="+c.Prof.Opf)
 	}
+	x := c.Prof.Xml
+	f = append(f, fmt.Sprintf("rev=%v", x.Rev), fmt.Sprintf("foreign-id-last=%v", x.Foreign && !x.Rev), fmt.Sprintf("foreign-id-first=%v", x.Foreign && x.Rev), fmt.Sprintf("prefix=%v", x.Prefix != "" && x.Prefix != "r"),
+		fmt.Sprintf("quotes=%v", x.Single), fmt.Sprintf("oc=%v", x.OC), fmt.Sprintf("gaps=%v", x.Gaps), "decl="+x.Decl)
 	return "{" + strings.Join(f, ",") + "}"
 }
 
